@@ -99,6 +99,12 @@ func replaySyntax(c *Ctx, cs Case) {
 }
 
 func syntaxCase(c *Ctx, spec string, ds *declSet) {
+	if strings.Contains(spec, "--\t") {
+		// `--` directly followed by a tab: the documentation does not say whether this is the end-of-options
+		// token (the code says no, and rejects it); not claimed either way
+		c.Count("unclaimed_marker_before_tab", 1)
+		return
+	}
 	hooks := 0
 	app := cli.App("app", "")
 	app.ErrorHandling = flag.ContinueOnError
